@@ -101,8 +101,48 @@ def expand_iv(view_rd, node, iv, keep=()):
   return search.Interval(ex(iv.v), ex(iv.lo), ex(iv.hi), iv.closed_lo, iv.closed_hi, iv.accept_when)
 
 
+_KNOWN_ROOTS = {'self', 'len', 'np', 'numpy', 'math', 'abs', 'float', 'int', 'min', 'max', 'sum', 'set', 'list', 'sorted', 'round', 'True', 'False', 'None'}
+
+
+def open_terms(iv, T, C):
+  """Local names left in an expanded test (value and limits) that are neither the groups under test nor known roots:
+  the test reads something the expansion could not resolve (a field of a local object, a loop variable, a helper's
+  result), so its meaning is not known."""
+  allowed = set(_KNOWN_ROOTS)
+  for t in (T, C):
+    try:
+      allowed |= {x.id for x in ast.walk(ast.parse(t, mode='eval')) if isinstance(x, ast.Name)}
+    except SyntaxError:
+      pass
+  out = []
+  for e in (iv.v, iv.lo, iv.hi):
+    if e is None:
+      continue
+    bound = set()
+    for sub in ast.walk(e):
+      if isinstance(sub, (ast.GeneratorExp, ast.ListComp, ast.SetComp, ast.DictComp)):
+        for gen in sub.generators:
+          bound |= {x.id for x in ast.walk(gen.target) if isinstance(x, ast.Name)}
+      if isinstance(sub, ast.Lambda):
+        bound |= {a.arg for a in sub.args.args}
+    for sub in ast.walk(e):
+      if isinstance(sub, ast.Name) and sub.id not in allowed and sub.id not in bound and sub.id not in out:
+        out.append(sub.id)
+  return out
+
+
 def check_spec(kappa, iv, T, C, extra=None):
-  """(matches, why) for an expanded interval against the spec row of kappa on groups T, C (texts)."""
+  """(verdict, why): True = matches the spec row of kappa on groups T, C; False = a closed term that differs from it;
+  None = differs, but the test still contains unresolved locals (its meaning is not known)."""
+  ok, why = _check_spec_closed(kappa, iv, T, C, extra)
+  if not ok:
+    free = open_terms(iv, T, C)
+    if free:
+      return None, '%s [not decided: the test reads %s, which the expansion did not resolve]' % (why, ', '.join(free[:4]))
+  return ok, why
+
+
+def _check_spec_closed(kappa, iv, T, C, extra=None):
   vt = norm(iv.v)
   if kappa == 'volume_ratio_tolerance':
     okv = vt in ('%s / %s' % (share(C), share(T)), '%s / %s' % (share(T), share(C)))
@@ -176,13 +216,32 @@ def kappa_mentions(f, kappa, keep=()):
         texts.append(norm(ctx.rd.expand(n, e, keep=keep)[0]))
       except Exception:      # expansion is best effort here
         pass
-      if any(('parameters.' + kappa) in t or ('_par.' + kappa) in t for t in texts):
-        out.append(n)
+      if any(('parameters.' + kappa) in t or ('_par.' + kappa) in t for t in texts) or \
+          any((isinstance(x, ast.Attribute) and x.attr == kappa) or (isinstance(x, ast.Constant) and x.value == kappa) for x in ast.walk(e)):
+        out.append(n)          # also `par.kappa`, `limits.kappa`, getattr(..., 'kappa') and table entries naming the parameter
         break
   # nested functions and lambdas (table-driven checks)
   for sub in ast.walk(f.node):
-    if isinstance(sub, (ast.Lambda, ast.FunctionDef)) and sub is not f.node and ('parameters.' + kappa) in norm(sub):
+    if isinstance(sub, (ast.Lambda, ast.FunctionDef)) and sub is not f.node and (('parameters.' + kappa) in norm(sub) or any(
+        (isinstance(x, ast.Attribute) and x.attr == kappa) or (isinstance(x, ast.Constant) and x.value == kappa) for x in ast.walk(sub))):
       out.append(None)
+  return out
+
+
+def closure_mentions(repo, f, kappa):
+  """Functions other than f itself, reachable from f through calls, that name the parameter kappa (as an attribute or a
+  string): the constraint may be enforced there in a form the rule does not follow."""
+  from mmsa import types as typesmod_
+  try:
+    seen, _edges = typesmod_.Types(repo).closure([f])
+  except Exception:
+    return ['?']
+  out = []
+  for q, g_ in seen.items():
+    if g_ is f:
+      continue
+    if any((isinstance(x, ast.Attribute) and x.attr == kappa) or (isinstance(x, ast.Constant) and x.value == kappa) for x in ast.walk(g_.node)):
+      out.append(q)
   return out
 
 
@@ -207,23 +266,52 @@ def accept_edge_ok(n, iv):
 
 
 def budget_provenance(view, node, vt, T, C):
-  """required_impact / iroas of object D: D was built from aggregate_time_series(T) and its x set from aggregate_time_series(C)."""
+  """required_impact / iroas of object D: D was built from aggregate_time_series(T) and its x set from aggregate_time_series(C).
+  Verdict True / False (a recognised different group feeds the diagnostics) / None (not resolved)."""
   m = re.fullmatch(r'(\w+)\.required_impact / .+', vt)
   if not m:
-    return False, 'shape'
+    return None, 'shape'
   D = m.group(1)
+
+  def same_group(arg_text, arg_node, at, want, want_expr):
+    """arg (text, at node `at`) denotes the pushed group `want`?  True / False (it is the *other* pushed group) / None"""
+    if arg_text == want:
+      return True
+    full_a = norm(view.rd.expand(at, arg_node, aliases=True)[0]) if arg_node is not None else arg_text
+    full_w = norm(view.rd.expand(node, want_expr, aliases=True)[0]) if want_expr is not None else want
+    if full_a == full_w:
+      return True
+    other = C if want == T else T
+    if arg_text == other or full_a == other:
+      return False
+    return None
+  try:
+    T_expr, C_expr = ast.parse(T, mode='eval').body, ast.parse(C, mode='eval').body
+  except SyntaxError:
+    T_expr = C_expr = None
   xs = view.attr_store_before(node, D, 'x')
   if xs is None:
-    return False, 'no store to %s.x dominates the budget test' % D
-  xt = norm(view.expand(xs, xs.ast.value))
-  if xt != 'self.data.aggregate_time_series(%s)' % C:
-    return False, '%s.x is %s, not the aggregate of the pushed control group %s' % (D, xt, C)
+    anyx = any(isinstance(x_, ast.Attribute) and x_.attr == 'x' and isinstance(x_.ctx, ast.Store) and norm(x_.value) == D for x_ in ast.walk(view.f.node))
+    return (None if anyx else False), 'no store to %s.x dominates the budget test' % D
+  xv = view.expand(xs, xs.ast.value)
+  xt = norm(xv)
+  if not (isinstance(xv, ast.Call) and norm(xv.func) == 'self.data.aggregate_time_series' and len(xv.args) == 1):
+    return None, '%s.x is %s, not visibly the aggregate of the pushed control group %s' % (D, xt, C)
+  sg = same_group(norm(xv.args[0]), xs.ast.value.args[0] if isinstance(xs.ast.value, ast.Call) and xs.ast.value.args else None, xs, C, C_expr)
+  if not sg:
+    return sg, '%s.x is %s, not the aggregate of the pushed control group %s' % (D, xt, C)
   d = view.rd.single_def(xs, D)
   if d is None or d.how != 'assign':
-    return False, '%s has no unique construction' % D
-  ct = norm(view.expand(d.node, d.value))
-  if not re.fullmatch(r'(\w+\.)?TBRMMDiagnostics\(self\.data\.aggregate_time_series\(%s\), self\.parameters\)' % re.escape(T), ct):
-    return False, '%s is built as %s, not from the aggregate of the pushed treatment group %s' % (D, ct, T)
+    return None, '%s has no unique construction' % D
+  cv = view.expand(d.node, d.value)
+  ct = norm(cv)
+  if not (isinstance(cv, ast.Call) and norm(cv.func).split('.')[-1] == 'TBRMMDiagnostics' and len(cv.args) == 2 and isinstance(cv.args[0], ast.Call)
+          and norm(cv.args[0].func) == 'self.data.aggregate_time_series' and len(cv.args[0].args) == 1):
+    return None, '%s is built as %s, not visibly from the aggregate of the pushed treatment group %s' % (D, ct, T)
+  raw = d.value.args[0].args[0] if isinstance(d.value, ast.Call) and d.value.args and isinstance(d.value.args[0], ast.Call) and d.value.args[0].args else None
+  sg = same_group(norm(cv.args[0].args[0]), raw, d.node, T, T_expr)
+  if not sg:
+    return sg, '%s is built as %s, not from the aggregate of the pushed treatment group %s' % (D, ct, T)
   return True, ''
 
 
@@ -256,6 +344,12 @@ def dwc_summary(repo, rep):
              (m is not None and m.kind == 'test' and id(m) not in understood)]
     # plain aliases `x = self.parameters.kappa` are not uses
     stray = [m for m in stray if not (m is not None and m.kind == 'stmt' and isinstance(m.ast, ast.Assign) and isinstance(m.ast.value, ast.Attribute))]
+    if not cands and not stray:
+      via = closure_mentions(repo, f, kappa)
+      if via:
+        incomplete[kappa] = 'design_within_constraints reaches %s, which consults %s: the enforcement is not followed there' % (', '.join(via)[:80], kappa)
+        out[kappa] = None
+        continue
     if other_rets or (stray and not cands):
       incomplete[kappa] = 'design_within_constraints consults %s in a form that is not understood' % kappa if stray else 'non-constant return value'
       out[kappa] = None
@@ -288,6 +382,9 @@ def dwc_summary(repo, rep):
 def report_enforcement(rep, where, kappa, e, fq):
   if e is None:
     return False
+  if e.ok_spec is None:
+    rep.undecided('R1/predicate', '%s: %s' % (where, kappa), e.why[:300], e.where)
+    return True
   rep.check(e.ok_spec, 'R1/predicate', '%s: %s is tested as %r' % (where, kappa, e.iv), fq, '%s: %s' % (kappa, norm(e.node.expr)[:100]),
             '%s: the %s check is wrong — %s' % (where, kappa, e.why), e.where)
   if kappa in INTEGER_VALUED:
@@ -713,7 +810,24 @@ def run_search(repo, rep, name, dwc):
       near = set(g.loop_body_nodes(outer))        # uses before the loop (e.g. filling in defaults) are not enforcement
       consulted = [m for m in kappa_mentions(f, kappa) if (m is None or m in near)
                    and not (m is not None and m.kind == 'stmt' and isinstance(m.ast, ast.Assign) and isinstance(m.ast.value, ast.Attribute))]
+      # values derived from kappa before the loop (bounds computed once) and read inside it
+      derived = set()
+      for _round in range(4):
+        for st_ in ast.walk(f.node):
+          if isinstance(st_, ast.Assign) and any((isinstance(x_, ast.Attribute) and x_.attr == kappa) or (isinstance(x_, ast.Name) and x_.id in derived)
+                                                  for x_ in ast.walk(st_.value)):
+            for t_ in st_.targets:
+              derived |= {x_.id for x_ in ast.walk(t_) if isinstance(x_, ast.Name)}
+      if derived and not consulted:
+        consulted = [m for m in near if any(isinstance(x_, ast.Name) and x_.id in derived and isinstance(x_.ctx, ast.Load)
+                                            for e_ in FuncCtx.node_exprs(m) for x_ in ast.walk(e_))]
       dwc_calls = [c_ for n_ in near for e_ in FuncCtx.node_exprs(n_) for c_ in au.calls_in(e_) if norm(c_.func).endswith('design_within_constraints')]
+      via_ = [] if (consulted or dwc_calls) else closure_mentions(repo, f, kappa)
+      if via_:
+        rep.undecided('R2/must-pass', '%s: %s' % (name, kappa), '%s is consulted in %s, reached from %s: the enforcement is not followed there' % (kappa, ', '.join(via_)[:80], name),
+                      f.loc(P_.push_call))
+        result[kappa] = ('undecided', None)
+        continue
       if consulted or (dwc_calls and (dwc.get(kappa) is not None or kappa in dwc.get('#incomplete', {}))):
         rep.undecided('R2/must-pass', '%s: %s' % (name, kappa),
                       '%s is consulted in %s%s but no test guarding the push on (%s, %s) was recognised' % (kappa, name, ' (through design_within_constraints)' if dwc_calls else '', T, C),
@@ -746,8 +860,25 @@ def provenance_sizes(repo, rep, view, P_, kappa):
   if kappa == 'treatment_geos_range':
     good = isinstance(itT, ast.Call) and norm(itT.func) == 'self.treatment_group_generator' and len(itT.args) == 1 and isinstance(itT.args[0], ast.Name)
     size_hdr = view.loop_binding(hT, itT.args[0].id) if good else None
-    it_n = norm(rd.expand(size_hdr, size_hdr.ast.iter)[0]) if size_hdr is not None else ''
+    it_e = rd.expand(size_hdr, size_hdr.ast.iter)[0] if size_hdr is not None else None
+    # element-preserving wrappers: enumerate(X, ...) (the size is the second target), list/tuple/sorted/reversed/iter(X)
+    while isinstance(it_e, ast.Call) and isinstance(it_e.func, ast.Name) and it_e.func.id in ('enumerate', 'list', 'tuple', 'sorted', 'reversed', 'iter') and it_e.args:
+      if it_e.func.id == 'enumerate':
+        tg = size_hdr.ast.target
+        if not (isinstance(tg, (ast.Tuple, ast.List)) and len(tg.elts) == 2 and norm(tg.elts[1]) == itT.args[0].id):
+          break
+      it_e = it_e.args[0]
+    it_n = norm(it_e) if it_e is not None else ''
     good = good and it_n == 'self.treatment_group_size_range()'
+    if not good:
+      # recognised wrong: the generator is driven by a slice of the size range, or by sizes that do not come from it at all
+      narrowed = isinstance(it_e, ast.Subscript) and 'treatment_group_size_range' in it_n
+      foreign = it_e is not None and isinstance(itT, ast.Call) and norm(itT.func) == 'self.treatment_group_generator' and 'treatment_group_size_range' not in it_n \
+          and isinstance(it_e, (ast.Call, ast.Tuple, ast.List)) and (not isinstance(it_e, ast.Call) or norm(it_e.func) == 'range')
+      if not (narrowed or foreign):
+        rep.undecided('R2/must-pass', 'exhaustive_search: treatment_geos_range', 'the treatment groups iterate `%s` over sizes `%s`: not the recognised generator/size-range pair'
+                      % (norm(itT)[:60], it_n[:60]), f.loc(hT.ast))
+        return False
     rep.check(good, 'R2/must-pass', 'exhaustive_search: treatment groups come from treatment_group_generator(n), n over treatment_group_size_range()',
               f.qualname, 'for %s in %s / sizes %s' % (T, norm(itT)[:60], it_n[:60]),
               'exhaustive_search: the pushed treatment group does not come from treatment_group_generator(n) with n over the whole treatment_group_size_range() (iterates `%s` over `%s`): the size range is not enforced'
@@ -759,6 +890,9 @@ def provenance_sizes(repo, rep, view, P_, kappa):
       generator_exact_size(repo, rep, 'treatment_group_generator', lambda ff, n: ff.params[1], 'treatment_group_generator')
   elif kappa == 'control_geos_range':
     good = isinstance(itC, ast.Call) and norm(itC.func) == 'self.control_group_generator' and len(itC.args) == 1 and norm(itC.args[0]) == T
+    if not good and not (isinstance(itC, ast.Call) and norm(itC.func) == 'self.control_group_generator'):
+      rep.undecided('R2/must-pass', 'exhaustive_search: control_geos_range', 'the control groups iterate `%s`: not a visible call of control_group_generator' % norm(itC)[:60], f.loc(hC.ast))
+      return False
     rep.check(good, 'R2/must-pass', 'exhaustive_search: control groups come from control_group_generator(treatment group)', f.qualname,
               'for %s in %s' % (C, norm(itC)[:60]),
               'exhaustive_search: the pushed control group does not come from control_group_generator(%s) (iterates `%s`)' % (T, norm(itC)[:60]), f.loc(hC.ast))
